@@ -105,7 +105,7 @@ def make_map_closure(ctx, finished):
 
 def s_event(name, ret=None):
     def event(ex, st, func, args, ty):
-        st.events.append((name,))
+        st.events.append((name,) + tuple(origin(st, a) if isinstance(obj(st, a), ObjV) or isinstance(a, RefV) else str(a) for a in args[1:3]))
         if ret == 'result':
             out = []
             for good in (True, False):
@@ -317,6 +317,19 @@ def _combo(args):
         else:
             cand('go.chain', 'chain-differs', f'options {desc_opts}: chain built is {names}, documented order is {exp}' + (f' (undecided options: {und})' if und else ''),
                  {'options': {k: (v if isinstance(v, (int, bool, type(None))) else str(v)) for k, v in desc_opts.items()}, 'chain': names, 'expected': exp}, hav)
+        # ---- C17: inputs in argv order, one index for the whole run
+        rf = [e for e in evs if e[0] == 'read_file']; ri = [e for e in evs if e[0] == 'read_input']; si = [e for e in evs if e[0] == 'stdin()']
+        if not (rf or ri or si):
+            good_in = None        # the run ended before any input (failed validation or start)
+        elif n_files == 0:
+            good_in = not rf and len(si) == 1 and len(ri) == 1
+        else:
+            # a failing file ends the run: the files read are a prefix of argv order
+            good_in = not si and not ri and [e[1] for e in rf] == [f'files{i}' for i in range(len(rf))] and len(set(e[2] for e in rf)) <= 1 and 1 <= len(rf) <= n_files
+        if good_in is not None:
+            fi = fam('go.inputs'); fi['obl'] += 1; fi['wit'] += 1
+        if good_in: fi['ok'] += 1
+        elif good_in is False: cand('go.inputs', 'inputs-order', f'inputs are not read in argv order with one index: {[e[:3] for e in evs if e[0] in ("read_file", "read_input", "stdin()")]}', {'n_files': n_files}, hav)
         # ---- C08.c capacity placement
         for i, c in enumerate(ch):
             if c[0] == 'SortProcess' and len(c) > 1:
@@ -341,11 +354,12 @@ def _combo(args):
     return res
 
 
-def go_chain(ctx, want=('go.chain', 'go.capacity', 'go.validate_before_io')):
+def go_chain(ctx, want=('go.chain', 'go.capacity', 'go.validate_before_io'), files_only=False):
     run = ctx.run
     mx = 2
     combos = list(itertools.product(range(mx + 1), range(mx + 1), (0, 1), (0, 1)))
-    if ctx.quick:
+    if files_only: combos = [(0, 0, 0, 0), (0, 0, 0, 1), (0, 0, 0, 2), (1, 1, 0, 2), (0, 0, 0, 3)]
+    if ctx.quick and not files_only:
         combos = [c for c in combos if c[3] == 0 or (c[0] <= 1 and c[1] <= 1)]
     run.bounds['go'] = f'Cli fully symbolic: every Option discriminant, unique, skip, take free; --select x{{0..{mx}}}, --sort-by x{{0..{mx}}}, --set x{{0,1}}, files x{{0,1}}; every from_str / get_processor outcome (Ok/Err); {len(combos)} vector-length combinations'
     run.assume('from_str / get_processor / PreSetCollection::create_process are summarised as "Ok(opaque configuration) or Err" here (their own behaviour is C18.b / C13)')
@@ -353,6 +367,7 @@ def go_chain(ctx, want=('go.chain', 'go.capacity', 'go.validate_before_io')):
     descs = {'go.chain': 'the chain built by go(), read outside-in, is PreSet? Splitter? Filter? Selection1..n Uniquness? Sort_m..Sort_1 Limiter? Grouper|Merger? Output with each stage present iff its option is, and with the option\'s own parameters',
              'go.capacity': 'a sorter gets a capacity only when it feeds the limiter directly, and then exactly skip+take',
              'go.validate_before_io': 'every configuration validation precedes start(), the stdin factory and any read; a failed validation returns Err with nothing started',
+             'go.inputs': 'without files stdin is opened once and read once; with files they are read in argv order, a prefix of them if one fails, all through the same index cell',
              'go.nopanic_observation': 'observation: skip+take overflow assert (outside S,T <= 6)'}
     cands = []
     chains = {}
